@@ -11,6 +11,9 @@
 (*       GOMAXPROCS)                                                       *)
 (*   r5  run after the wall clock passed the end of a vesting account all header times call expired *)
 (*   r6  a node that serves eth_call (tip and historical heights), CheckTx and Simulate between blocks *)
+(*   r7  a node that answers storage / code / balance / eth_call queries   *)
+(*       on eight other goroutines WHILE it executes and commits each      *)
+(*       block (Replicas.tla: hidden input `q`, mode "sharedscratch")      *)
 (* each at another wall-clock instant and with another hash-map seed.      *)
 (* Lines: History (starts a trace), Block (replica, height, app hash,      *)
 (* per-transaction code / codespace / data / gas wanted / gas used /       *)
